@@ -741,7 +741,8 @@ class CircleContain(Harness):
     functions = (SH + ':Circle.is_point_inside_shape', SH + ':Circle.vertices',
                  SH + ':Circle._get_vertex_positions',
                  SH + ':Circle.get_border_point')
-    bounds = 'pos, p symbolic complex; r > 0; angle symbolic; ratio in (0,1]'
+    bounds = ('pos, p symbolic complex; r > 0; angle symbolic; ratio symbolic '
+              'in (0,1] and the literals 0.0, 0, 1, 1.0, None')
     timeout_ms = {'quick': 15000, 'thorough': 60000}
 
     def sym(self, ctx, cfg):
@@ -771,7 +772,13 @@ class CircleContain(Harness):
         ctx.prove('border-direction', And(_cross(d, B) == 0, _dot(d, B) > 0))
         ctx.prove('border-on-circle', B.abs2() == r * r)
         P1 = C.get_border_point(ang)
-        ctx.prove('border-default-ratio', ((_c(P1) - pos).abs2() == r * r))
+        ctx.prove('border-default-ratio', _c(P1) - pos == d * r)
+        # the special values of the ratio: 0 is the centre, None and 1 the
+        # border (int and float spellings)
+        for q in (0.0, 0, 1, 1.0, None):
+            Pq = C.get_border_point(ang, q)
+            want = d * r * (1 if q is None else q)
+            ctx.prove('border-ratio=%r' % (q, ), _c(Pq) - pos == want)
 
     def replay(self, cfg, name, model):
         sh = repo_module(SH)
@@ -794,6 +801,12 @@ class CircleContain(Harness):
                                          math.sin(math.radians(ang)))
         if abs(P - want) > 1e-9 * (r + abs(pos)):
             bad.append('border')
+        dd = complex(math.cos(math.radians(ang)), math.sin(math.radians(ang)))
+        for q in (0.0, 0, 1, 1.0, None):
+            Pq = C.get_border_point(ang, q)
+            if abs(Pq - (pos + (1 if q is None else q) * r * dd)) > 1e-9 * (
+                    r + abs(pos)):
+                bad.append('ratio=%r' % (q, ))
         return dict(reproduced=bool(bad),
                     key='C19/Circle/' + '+'.join(bad),
                     detail=dict(pos=pos, r=r, p=p, angle=ang, ratio=ratio))
@@ -1683,7 +1696,7 @@ class Distances(Harness):
     functions = (CE + ':Cluster.calc_dist_all_users_to_each_cell',
                  CE + ':Cluster.calc_dist_all_users_to_each_cell_no_wrap_around',
                  CE + ':Cluster.get_all_users', CE + ':CellBase.add_user',
-                 CE + ':AccessPoint.pos',
+                 CE + ':AccessPoint.pos', CE + ':Cluster.create_wrap_around_cells',
                  SH + ':Coordinate.move_by_relative_coordinate',
                  SH + ':Coordinate.calc_dist')
     bounds = ('square grid N=4 (side symbolic), hexagon cluster N=3 (radius 1, '
@@ -1708,7 +1721,14 @@ class Distances(Harness):
                             which=which))
             out.append(dict(type='square', N=4, rot=0.0, hist=hist,
                             which=which))
+        out.append(dict(type='simple', N=19, rot=0.0, r=1.0, wrap='after',
+                        include=True))
         if tier != 'quick':
+            out.append(dict(type='simple', N=19, rot=0.0, r=1.0,
+                            wrap='before', include=False))
+            out.append(dict(type='simple', N=19, rot=30.0, r=2.0,
+                            wrap='before', include=True, hist='setpos',
+                            which='last'))
             out += [dict(type='simple', N=7, rot=0.0, r=2.0),
                     dict(type='square', N=9, rot=0.0)]
             for hist, which in (('setpos', 'first'), ('move', 'last')):
@@ -1737,6 +1757,8 @@ class Distances(Harness):
         r = _size_input(ctx, cfg)
         cl = ce.Cluster(r, cfg['N'], pos, 1, cfg['type'], rot)
         cells = list(cl)
+        if cfg.get('wrap') == 'before':
+            cl.create_wrap_around_cells(cfg.get('include', False))
         us = [ctx.cplx('u%d' % i) for i in range(3)]
         cells[-1].add_user(ce.Node(us[1]), relative_pos_bool=False)
         cells[0].add_user(ce.Node(us[0]), relative_pos_bool=False)
@@ -1759,7 +1781,10 @@ class Distances(Harness):
             ctx.prove('moved-cell-takes-its-users-along', And(*goals))
             if cfg['type'] != 'square':
                 k.add_user(ce.Node(ctx.cplx('u3')), relative_pos_bool=False)
-        # positions are read from the objects as they are now
+        if cfg.get('wrap') == 'after':
+            cl.create_wrap_around_cells(cfg.get('include', False))
+        # positions are read from the objects as they are now; the columns
+        # are the real cells of the cluster (never their wrapped copies)
         users = [u for c in cells for u in c.users]
         assert [id(u) for u in cl.get_all_users()] == [id(u) for u in users]
         nu = len(users)
@@ -1809,6 +1834,8 @@ class Distances(Harness):
         ce.Cluster._normalized_cell_positions.clear()
         cl = ce.Cluster(r, cfg['N'], pos, 1, cfg['type'], rot)
         cells = list(cl)
+        if cfg.get('wrap') == 'before':
+            cl.create_wrap_around_cells(cfg.get('include', False))
         # the users' exact places do not matter for a distance check: they
         # are placed inside the cells through the public API
         cells[-1].add_border_user(40.0, 0.5)
@@ -1827,14 +1854,17 @@ class Distances(Harness):
                         for u, b in zip(k.users, before))
             if cfg['type'] != 'square':
                 k.add_border_user(300.0, 0.7)
+        if cfg.get('wrap') == 'after':
+            cl.create_wrap_around_cells(cfg.get('include', False))
         bad, det = self._matrices_bad(cl)
         if hist and not moved:
             bad.append('users-not-moved-with-cell')
         det.update(history=[hist, cfg.get('which'), dz] if hist else None,
                    failed=bad)
         return dict(reproduced=bool(bad),
-                    key='C19/Cluster.calc_dist_all_users/%s%s' %
-                    (cfg['type'], ':after-cell-moved' if hist else ''),
+                    key='C19/Cluster.calc_dist_all_users/%s%s%s' %
+                    (cfg['type'], ':after-cell-moved' if hist else '',
+                     ':after-wrap-around' if cfg.get('wrap') else ''),
                     detail=det)
 
     def _history_probe(self, rng):
@@ -1874,10 +1904,45 @@ class Distances(Harness):
         ce.Cluster._normalized_cell_positions.clear()
         return n
 
+    def _wrap_probe(self, rng):
+        """19-cell clusters: create_wrap_around_cells() before / after the
+        users are placed, with and without the users in the wrapped copies"""
+        from pysym.runner import ConcreteViolation
+        ce = repo_module(CE)
+        np.random.seed(rng.randrange(2**31))
+        n = 0
+        for ctype, when, include in (('simple', 'before', False),
+                                     ('simple', 'after', True),
+                                     ('3sec', 'after', False),
+                                     ('simple', 'both', True)):
+            ce.Cluster._normalized_cell_positions.clear()
+            r = 10**rng.uniform(-1, 1)
+            cl = ce.Cluster(r, 19, complex(rng.uniform(-3, 3),
+                                           rng.uniform(-3, 3)), 1, ctype,
+                            rng.choice([0.0, 30.0, -77.5]))
+            if when in ('before', 'both'):
+                cl.create_wrap_around_cells(include)
+            cl.add_random_users(num_users=2)
+            cl.add_border_users([8, 13, 19], [0, 180, 300], 0.95)
+            if when in ('after', 'both'):
+                cl.create_wrap_around_cells(include)
+            bad, det = self._matrices_bad(cl)
+            if bad:
+                det.update(history=['create_wrap_around_cells %s the users '
+                                    'were added' % when, include],
+                           failed=bad)
+                det.pop('got'), det.pop('want')
+                raise ConcreteViolation(
+                    'C19/Cluster.calc_dist_all_users/%s:after-wrap-around' %
+                    ctype, det)
+            n += 1
+        ce.Cluster._normalized_cell_positions.clear()
+        return n
+
     def concrete(self, cfg, rng):
         rep = 0
         if cfg['type'] == 'square' and cfg['N'] == 4 and not cfg.get('hist'):
-            rep = rep_clusters()
+            rep = rep_clusters() + self._wrap_probe(rng)
         n = 0
         if cfg.get('hist') == 'setpos' and cfg['type'] == 'simple' and \
                 cfg['N'] == 3:
@@ -2136,10 +2201,39 @@ def _probe_shapes():
             ('CellSquare', lambda: ce.CellSquare(0.5 + 0.5j, 2.0, 3, 30))]
 
 
+def _special_ratios(name, S):
+    """ratio 0 is the centre, None / 1 / 1.0 the same border point, 0.5
+    half way -- for every class (Circle overrides the method)"""
+    from pysym.runner import ConcreteViolation
+    n = 0
+    for ang in (0.0, 33.0, 100, 217.5, -45):
+        full = complex(S.get_border_point(ang, 1.0))
+        c = complex(S.pos)
+        tol = 1e-9 * (abs(full - c) + abs(c))
+        for q, want in ((0, c), (0.0, c), (None, full), (1, full),
+                        (0.5, c + 0.5 * (full - c)),
+                        (0.25, c + 0.25 * (full - c))):
+            got = complex(S.get_border_point(ang, q)) if q is not None else \
+                complex(S.get_border_point(ang))
+            if abs(got - want) > tol:
+                raise ConcreteViolation(
+                    'C19/%s.get_border_point/ratio=%s' %
+                    (name, 'None' if q is None else ('%g' % q)),
+                    _js(dict(angle=ang, ratio=q, got=got, expected=want,
+                             centre=c, border=full)))
+            n += 1
+    return n
+
+
 def rep_border_points():
     """get_border_point(angle, ratio) / add_border_user: angle and ratio in
     every scalar representation (and angle containers)"""
     n = 0
+    ce_ = repo_module(CE)
+    extra = [('CellWrap', lambda: ce_.CellWrap(4 + 1j, ce_.Cell(0j, 1.5, 1,
+                                                               20.0)))]
+    for name, mk in _probe_shapes() + extra:
+        n += _special_ratios(name, mk())
     for name, mk in _probe_shapes():
         S = mk()
         for ang in (0, 25, 100, 125, 200, 300, -45, -130, 400, 17.5, 0.25):
